@@ -238,8 +238,11 @@ def check_restart(prop, tier, seed):
                      for c, eng, tr, rp in procs[lo:lo + 16]]
             for p, eng, tr, rp in batch:
                 out, _ = p.communicate()
-                if p.returncode != 0 or not os.path.exists(rp):
+                complete = os.path.exists(rp) and os.path.exists(tr) and open(tr).read().rstrip().endswith('{"e":"Reset"}')
+                if not complete:
                     raise Undecided("leadrun failed on %s (rc=%s): %s" % (eng, p.returncode, (out or "")[-1500:]))
+                # (a driver that dies AFTER it has written its complete trace -- a background goroutine of the node under test
+                #  panicking during shutdown -- does not take the recorded behaviour with it)
                 bytrace.setdefault(eng, []).append(tr)
                 runs.append(json.load(open(rp)))
         cov["replay"] = runs[:12]
